@@ -396,6 +396,9 @@ func main() {
 	sb.WriteString("/- GENERATED by /verif/go/factgen from /repo's working tree. Do not edit. -/\nnamespace Mkts.Extracted.Skel\n\n")
 	for _, spec := range wantSkeletons {
 		// a spec ending in "+builtins" also lists `delete(m, k)` / `close(c)` as atoms
+		// a spec ending in "+args" prints every call atom with its argument expressions
+		withArgs := strings.HasSuffix(spec, "+args")
+		spec = strings.TrimSuffix(spec, "+args")
 		withBuiltins := strings.HasSuffix(spec, "+builtins")
 		spec = strings.TrimSuffix(spec, "+builtins")
 		parts := strings.SplitN(spec, ":", 2)
@@ -407,7 +410,7 @@ func main() {
 		if fd == nil {
 			fail("function %s not found", spec)
 		}
-		atoms := skeleton(p, fd, withBuiltins)
+		atoms := skeleton(p, fd, withBuiltins, withArgs)
 		fmt.Fprintf(&sb, "def %s : List String := [", leanName(spec))
 		for i, a := range atoms {
 			if i > 0 {
@@ -463,7 +466,7 @@ func findFunc(p *packages.Package, name string) *ast.FuncDecl {
 // skeleton lists, in source order, every call (by the selector / function name), channel
 // operation, assignment to a struct field, and return, with "{"/"}" markers for control
 // structure so that "inside which branch / loop / goroutine" stays visible.
-func skeleton(p *packages.Package, fd *ast.FuncDecl, withBuiltins bool) []string {
+func skeleton(p *packages.Package, fd *ast.FuncDecl, withBuiltins, withArgs bool) []string {
 	var out []string
 	var walkStmt func(s ast.Stmt)
 	var walkExpr func(e ast.Expr)
@@ -508,7 +511,15 @@ func skeleton(p *packages.Package, fd *ast.FuncDecl, withBuiltins bool) []string
 					}
 					return false
 				}
-				out = append(out, "call:"+callName(x))
+				if withArgs {
+					as := make([]string, len(x.Args))
+					for i, a := range x.Args {
+						as[i] = types.ExprString(a)
+					}
+					out = append(out, "call:"+callName(x)+"("+strings.Join(as, ", ")+")")
+				} else {
+					out = append(out, "call:"+callName(x))
+				}
 				return false
 			case *ast.UnaryExpr:
 				if x.Op == token.ARROW {
@@ -619,7 +630,16 @@ func skeleton(p *packages.Package, fd *ast.FuncDecl, withBuiltins bool) []string
 			out = append(out, "typeswitch{")
 			for _, c := range x.Body.List {
 				cc := c.(*ast.CaseClause)
-				out = append(out, "case{")
+				// the case's types are the label (`default` for the default clause)
+				lbl := "default"
+				if len(cc.List) > 0 {
+					var ls []string
+					for _, e := range cc.List {
+						ls = append(ls, types.ExprString(e))
+					}
+					lbl = strings.Join(ls, ",")
+				}
+				out = append(out, "case:"+lbl+"{")
 				for _, s := range cc.Body {
 					walkStmt(s)
 				}
